@@ -129,11 +129,14 @@ def run_job(job):
     acc = Acc()
     for iters in job['iters']:
         for totmode in job['totals']:
-            case = {'s': job['s'], 'oracle': job['oracle'], 'noise': job['noise'], 'iters': iters, 'total': totmode, 'seed': job['seed']}
+            # iteration counts <= 5 are where the open finding F11 (final step never validated) manifests; their numeric alphabet is
+            # fixed (seeds 0/1) so that the set of witnesses does not depend on VERIF_SEED
+            seed = job['seed'] if iters > 5 else job['seed'] % 2
+            case = {'s': job['s'], 'oracle': job['oracle'], 'noise': job['noise'], 'iters': iters, 'total': totmode, 'seed': seed}
             struct = STRUCTS[job['s']]
             acc.case(case, nontrivial=len(struct) >= 2)
             try:
-                struct, fails, info = run_one(job['s'], job['oracle'], job['noise'], iters, totmode, job['seed'])
+                struct, fails, info = run_one(job['s'], job['oracle'], job['noise'], iters, totmode, seed)
             except Exception as ex:  # (i) estimate must complete without error
                 import traceback
                 from ..core import _classify_exception
